@@ -143,6 +143,20 @@ func TestC04_Corruptions(t *testing.T) {
 		bases = append(bases, gen.V4Wire(6, 300, 0).Draw(rt, "base"))
 	})
 	bases = append(bases, append(v4Prefix(), 53, 1, 5, 1, 4, 255, 255, 255, 0, 255))
+	// options areas made of pad bytes only (no End), of every length around the 300-byte BOOTP minimum, and the same closed by End
+	for _, n := range []int{1, 2, 8, 58, 59, 60, 61, 62, 100, 336, 1260} {
+		c04.one(t, obs.Hex(append(v4Prefix(), make([]byte, n)...)))
+		c04.one(t, obs.Hex(append(append(v4Prefix(), make([]byte, n)...), 255)))
+		c04.one(t, obs.Hex(append(append(v4Prefix(), 53, 1, 1), make([]byte, n)...)))
+	}
+	// one code repeated k times with 1-byte values (RFC 3396 concatenation far beyond two instances)
+	for _, k := range []int{2, 3, 127, 128, 255, 256, 257, 258, 300, 400} {
+		a := v4Prefix()
+		for i := 0; i < k; i++ {
+			a = append(a, 43, 1, byte(i))
+		}
+		c04.one(t, obs.Hex(append(a, 255)))
+	}
 	for _, base := range bases {
 		for cut := 0; cut <= len(base); cut++ {
 			if len(base) > 700 && cut > 300 && cut < len(base)-40 && cut%7 != 0 {
